@@ -35,7 +35,10 @@ Edits(m, es) == [op |-> "map_edits", input |-> Encode(m), edits |-> es, refused 
 \* C16: addressing probes and field extraction
 Probe(lg, h) == LET w == Pow2(lg) IN
   [op |-> "map_probe", lg |-> lg, h |-> h,
-   probes |-> {[x |-> x, y |-> y, idx |-> TileIndex(x, y, h)] : x \in {0, 31, 32 % w, 33 % w, w - 32, w - 1}, y \in {0, 1 % h, h - 1}}]
+   \* tile i of the probe map refers to mapping entry i % 2048, and mapping entry k names tileset ProbeMapping(k)[1], image ProbeMapping(k)[2]
+   probes |-> {[x |-> x, y |-> y, idx |-> TileIndex(x, y, h), ts |-> ProbeMapping(TileIndex(x, y, h) % 2048)[1], img |-> ProbeMapping(TileIndex(x, y, h) % 2048)[2]] :
+                 x \in {0, 31, 32 % w, 33 % w, w - 32, w - 1}, y \in {0, 1 % h, h \div 2, h - 1}}]
+ProbeHeights == IF Tier = "thorough" THEN 1..256 ELSE {1, 2, 3, 5, 6, 7, 100, 255, 256}
 SaveCase(m, ub) == [op |-> "save_equiv", save |-> SavedGame(m, ub), map |-> Encode([m EXCEPT !.saved = TRUE, !.groups = <<>>])]
 Seqs(S, n) == [1..n -> S]
 Emit(id, steps) == PrintT("S|" \o ToJson([id |-> id, steps |-> steps]))
@@ -49,7 +52,7 @@ Next == /\ ~done /\ done' = TRUE
         /\ Emit(<<"rt10">>, << RoundTrip(MakeMap(10, 1, 1, 1, 0, 0, 4), <<1,0,0,0>>, <<0,0,0,0>>, <<>>) >>)
         /\ \A n \in 1..(IF Tier = "thorough" THEN 3 ELSE 2) : \A ix \in Seqs(1..Len(EditPool), n) :
              Emit(<<"ed", ix>>, << Edits(MakeMap(6, 2, 3, 2, 1, 1, 5), [i \in 1..n |-> EditPool[ix[i]]]) >>)
-        /\ \A lg \in 5..10 : \A h \in {1, 2, 3, 255, 256} : Emit(<<"probe", lg, h>>, << Probe(lg, h) >>)
+        /\ \A lg \in 5..10 : \A h \in ProbeHeights : Emit(<<"probe", lg, h>>, << Probe(lg, h) >>)
         /\ \A ub \in { UnitBlock(0, 0, 0, 0, 0, 0), UnitBlock(3, 5, 5, 120, 1, 2), UnitBlock(3, 5, 6, 120, 0, 3), UnitBlock(0, 1, 2, 77, 2, 0) } :
              Emit(<<"save", ub[1].v>>, << SaveCase(MakeMap(5, 2, 2, 2, 1, 0, 3), ub) >>)
         /\ \A w \in {32, 64, 128} : \A h \in 1..4 : Assert(Bijective(w, h), "bijective")
